@@ -94,3 +94,76 @@ func unusedPureRule(w *World, r *Result, only func(rel string) bool) int {
 	}
 	return n
 }
+
+// constFitsRule (CONST-EXACT, second half): constant.Int64Val and constant.Uint64Val report with their second result whether the
+// value fits; when it does not, the first result is undefined. A caller that throws the flag away (`n, _ := ...`)
+// works with a wrong number for every constant outside the range (a uint64 enum value above MaxInt64, an untyped big
+// constant). The same holds for a function of the repository that returns the two results unchanged.
+func constFitsRule(w *World, r *Result, only func(rel string) bool) int {
+	n := 0
+	// wrappers: functions whose every return is a direct call of an exact-reporting conversion
+	wrappers := map[types.Object]bool{}
+	isConv := func(info *types.Info, call *ast.CallExpr) bool {
+		f := calleeOf(info, call)
+		if f == nil {
+			return false
+		}
+		switch fullName(f) {
+		case "go/constant.Int64Val", "go/constant.Uint64Val":
+			return true
+		}
+		return wrappers[f]
+	}
+	for pass := 0; pass < 2; pass++ {
+		for _, fi := range sortedFuncs(w) {
+			if fi.Decl.Body == nil || fi.Decl.Type.Results == nil || fi.Decl.Type.Results.NumFields() != 2 {
+				continue
+			}
+			all, any := true, false
+			ast.Inspect(fi.Decl.Body, func(x ast.Node) bool {
+				if _, ok := x.(*ast.FuncLit); ok {
+					return false
+				}
+				if ret, ok := x.(*ast.ReturnStmt); ok {
+					if len(ret.Results) == 1 {
+						if c, ok := ret.Results[0].(*ast.CallExpr); ok && isConv(fi.Pkg.TypesInfo, c) {
+							any = true
+							return true
+						}
+					}
+					all = false
+				}
+				return true
+			})
+			if all && any {
+				wrappers[fi.Obj] = true
+			}
+		}
+	}
+	for _, fi := range sortedFuncs(w) {
+		rel := w.Rel(fi.Obj.Pkg())
+		if fi.Decl.Body == nil || (only != nil && !only(rel)) {
+			continue
+		}
+		info := fi.Pkg.TypesInfo
+		ast.Inspect(fi.Decl.Body, func(x ast.Node) bool {
+			as, ok := x.(*ast.AssignStmt)
+			if !ok || len(as.Lhs) != 2 || len(as.Rhs) != 1 {
+				return true
+			}
+			call, ok := as.Rhs[0].(*ast.CallExpr)
+			if !ok || !isConv(info, call) {
+				return true
+			}
+			n++
+			cons := normLocals(info, call)
+			if id := identOf(as.Lhs[1]); id != nil && id.Name == "_" {
+				r.bad("CONST-EXACT", fi.Name, cons, w.Pos(call.Pos()), "the second result says whether the constant fits in the integer type; it is thrown away, so a constant outside the range (a uint64 value above MaxInt64, a big untyped constant) is silently replaced by an undefined number in what is generated")
+			} else {
+				r.ok("CONST-EXACT", fi.Name, cons, w.Pos(call.Pos()), "the flag that says whether the constant fits is bound to a variable", true)
+			}
+			return true
+		})
+	}
+	return n
+}
